@@ -30,6 +30,11 @@ def extra(c):
                      "container": cont}
                 k.update(rfafam_params(rng, s, n))
                 out.append(k)
+    for _ in range(1200 if c.thorough else 200):          # user-supplied sampling functions (FunctionRFA)
+        xs, ys = lattice_series(rng, 2, rng.choice([4, 9, 30]))
+        out.append({"fn": "rfa", "strategy": rng.choice(["FunctionConst", "FunctionInterp", "FunctionScalar", "FunctionNorm"]),
+                    "x": [R(v) for v in xs], "y": [R(v) for v in ys], "n": rng.choice([2, 3, 5, 8, 49, 64]), "a": -1, "alpha": R(1), "beta": R(0),
+                    "exp": R(1), "smooth": 1, "exact": False, "container": rng.choice(["array", "list", "int"])})
     for _ in range(400 if c.thorough else 80):            # rejects: n below 2 (integer and float)
         xs, ys = lattice_series(rng)
         nf = rng.choice([1, 0, -3, 1.5, 1.999])
@@ -50,7 +55,8 @@ main(lambda: run_rfa_check(
     "C04",
     "lattice: every series (integer abscissae, gaps from the instance's set, values from its value set), every n, every explicit "
     "window a in 0..n and 20 parameter combinations of the four window strategies, emitted by TLC (MC_Rfa) + piecewise-constant "
-    "and cubic-spline runs on the same series; harness-originated: seeded random series with m up to 60, n up to 64, int/float/list "
+    "and cubic-spline runs on the same series; user-supplied sampling functions through FunctionRFA (constant, interpolating, "
+    "scalar-only, reduction-based); harness-originated: seeded random series with m up to 60, n up to 64, int/float/list "
     "abscissae, real parameters; every n in 2..64 on integer / non-dyadic float / negative abscissae; rejects n in {1,0,-3,1.5,1.999}. Judged clauses: container type, lengths (m-1)n+1, finiteness, "
     "grid = n-fold linspace of x, strictly increasing, every n-th abscissa bit-identical. non-trivial = m >= 3 and n >= 3 and "
     "non-uniform or non-constant; distinct by full input",
